@@ -595,8 +595,8 @@ def sq4_line_safe(c, which):
 
 
 def correspond(run):
-    n = 60 if run.tier == "quick" else 1000
-    n4 = 25 if run.tier == "quick" else 300
+    n = 110 if run.tier == "quick" else 1000
+    n4 = 40 if run.tier == "quick" else 300
     corpus = common.load_corpus(PROP)
     ntie = 30 if run.tier == "quick" else 400
     cases = [c for c in corpus if c.get("kind") != "sq4"] + [gen_case(run.rng) for _ in range(n)] \
